@@ -108,9 +108,12 @@ def extract(kwdump):
     g = read("prqlc/prqlc/src/sql/gen_expr.rs")
     mg = mask(g)
     s, e = block_after(g, mg, r"fn\s+translate_ident_part\b[^{]*\{")
-    want = ("let is_bare = valid_ident().is_match(&ident); match ctx.dialect.ident_quoting_style() { IdentQuotingStyle::ConditionallyQuoted => { "
-            "if is_bare && !keywords::is_keyword(&ident, &ctx.dialect_enum) { sql_ast::Ident::new(ident) } else { sql_ast::Ident::with_quote(ctx.dialect.ident_quote(), ident) } } "
-            "IdentQuotingStyle::AlwaysQuoted => { sql_ast::Ident::with_quote(ctx.dialect.ident_quote(), ident) } }")
+    # since fix 68466ba: the quoted form doubles the quote character before sqlparser's Display (emit_ident_quoted)
+    want = ("let is_bare = valid_ident().is_match(&ident); "
+            "let quoted = |ident: String| { let q = ctx.dialect.ident_quote(); sql_ast::Ident::with_quote(q, ident.replace(q, &format!(\"{q}{q}\"))) }; "
+            "match ctx.dialect.ident_quoting_style() { IdentQuotingStyle::ConditionallyQuoted => { "
+            "if is_bare && !keywords::is_keyword(&ident, &ctx.dialect_enum) { sql_ast::Ident::new(ident) } else { quoted(ident) } } "
+            "IdentQuotingStyle::AlwaysQuoted => quoted(ident), }")
     if norm(g[s:e]) != want:
         raise ExtractError("translate_ident_part is no longer the modelled function")
 
